@@ -16,7 +16,7 @@ CONSTANTS
   P1MaxChunks = 1
   MaxFiles = 1
   MaxPauses = 1
-  StartSizes = {1024, 40960}
+  StartSizes = {40960}
   Variant = "coded"
 INVARIANTS TypeOK SizeInRange ChunksInRange NeverRejectedByReceiver NothingQueuedIsRejected ProbeEndsOnce
   TokenPaired EncoderNotStuck OneChunkWhileProbing DoubleOnlyWhenAllowed ShrinkOnlyWhenSlow
